@@ -17,6 +17,11 @@ pub struct ExUtf8Error(std::str::Utf8Error);
 pub assume_specification [std::str::from_utf8] (b: &[u8]) -> (r: Result<&str, std::str::Utf8Error>)
     ensures vx_is_ascii(b@) ==> (r is Ok && r->Ok_0@ =~= vx_bytes_as_chars(b@));
 
+/// ASSUMED: Option::map_or applies the closure to the payload, or returns the default
+pub assume_specification<T, U, F: FnOnce(T) -> U> [Option::<T>::map_or] (o: Option<T>, default: U, f: F) -> (r: U)
+    requires o is Some ==> f.requires((o->Some_0,)),
+    ensures o is None ==> r == default,
+            o is Some ==> f.ensures((o->Some_0,), r);
 pub assume_specification [str::repeat] (s: &str, n: usize) -> (r: String)
     ensures s@.len() == 1 ==> r@ =~= Seq::new(n as nat, |i: int| s@[0]);
 
